@@ -279,7 +279,12 @@ pub fn gen_case(run_seed: u64, tier: Tier, force_cold: Option<bool>) -> Case {
         let mut tasks = vec![];
         for _ in 0..n_tasks {
             let t = if flavour == 0 {
-                Task::Ids(wl.range(1, 4) as u32)
+                // now and then more ids than any plausible per-thread reservation
+                if wl.chance(1, 12) {
+                    Task::Ids(*wl.pick(&[70, 130, 300]))
+                } else {
+                    Task::Ids(wl.range(1, 4) as u32)
+                }
             } else {
                 match wl.below(12) {
                     0..=2 => Task::Ids(wl.range(1, 3) as u32),
